@@ -7,6 +7,8 @@ import GtModel.Model.Assign
 import GtModel.Model.Bounded
 import GtModel.Model.Search
 import GtModel.Model.Heap
+import GtModel.Model.XmlEdits
+import GtModel.Model.MSetEdits
 import GtModel.Model.RoundTripIO
 import GtModel.Model.Render
 import GtModel.Proofs.RenderCheck
@@ -41,6 +43,9 @@ def table : List (String × Handler) := [
   ("assign", Assign.assignHandler),
   ("bounded", GtModel.Bounded.boundedHandler),
   ("heap", Heap.heapHandler),
+  ("scriptxml", Xml.xmlHandler),
+  ("pyspace", Xml.spaceHandler),
+  ("scriptmset", MSet.msetHandler),
   ("roundtrip", RoundTrip.roundtripHandler),
   ("render", renderChecked),
   ("build", GtModel.Builder.buildHandler),
